@@ -7,7 +7,7 @@ DIRTY_QTYPES = [1, 28, 2, 15, 33, 16, 99]
 
 def gen(rng, tier):
     quick = tier == "quick"
-    n_cat = 60 if quick else 1500
+    n_cat = 70 if quick else 1500
     for _ in range(n_cat):
         zones = qgen.gen_catalog(rng)
         cat = ";".join(z.render() for z in zones)
@@ -18,7 +18,7 @@ def gen(rng, tier):
         owners = {tuple(o) for z in zones for o in z.owners + [z.apex]}
         for nm in names:
             core = tuple(nm) in owners
-            if quick and not core and rng.random() < 0.85:
+            if quick and not core and rng.random() < 0.9:
                 continue
             qn = qgen.flip(rng, nm, 0.1)
             if core or not quick:
